@@ -43,7 +43,10 @@ const (
 
 // ---------- SP metadata ----------
 
-type ACS struct{ Binding, Location, Index, IsDefault string }
+type ACS struct {
+	Binding, Location, Index, IsDefault string
+	NoIndex                             bool // leave the index attribute out altogether (not schema-valid, but met in the wild)
+}
 type SLO struct{ Binding, Location string }
 
 // SPDesc describes the metadata document of a simulated service provider.
@@ -115,7 +118,10 @@ func (d *SPDesc) Node() *Node {
 	}
 	sp.Add(El(q(p, "NameIDFormat")).SetText("urn:oasis:names:tc:SAML:1.1:nameid-format:emailAddress"))
 	for _, a := range d.ACS {
-		e := El(q(p, "AssertionConsumerService"), Attr{"Binding", a.Binding}, Attr{"Location", a.Location}, Attr{"index", a.Index})
+		e := El(q(p, "AssertionConsumerService"), Attr{"Binding", a.Binding}, Attr{"Location", a.Location})
+		if !a.NoIndex {
+			e.Set("index", a.Index)
+		}
 		if a.IsDefault != "" {
 			e.Set("isDefault", a.IsDefault)
 		}
